@@ -675,8 +675,8 @@ def separator(rc):
     test_ok = False
     for s in sites(fn, lambda n: n in rem):
         for t, pol in s.conds:
-            if isinstance(t, ast.UnaryOp) and isinstance(t.op, ast.Not) and isinstance(t.operand, ast.Call) and call_name(t.operand) == "is_dconnected" and pol:
-                ob = kwarg(t.operand, "observed") or (t.operand.args[2] if len(t.operand.args) > 2 else None)
+            if isinstance(t, ast.Call) and call_name(t) == "is_dconnected" and not pol:
+                ob = kwarg(t, "observed") or (t.args[2] if len(t.args) > 2 else None)
                 if ob is not None and isinstance(ob, ast.BinOp) and isinstance(ob.op, ast.Sub) and dotted(ob.left) == result:
                     test_ok = True
     if not test_ok:
